@@ -345,20 +345,6 @@ class ToolsRoundTrip(Base):
         rnd_pairs = [('random:%d' % (base + k), random_pair(base + k)[1]) for k in range(1, n + 1)]
         return [{'tree': t, 'options': o} for t, o in PAIRS + rnd_pairs]
 
-    # K34 (recorded, not repaired): pycdlib-extract-files reads the target of a symbolic link from the Rock Ridge entry of the record
-    # also when it walks the UDF view, where the records are UDF file entries without one: AttributeError at the first link, the
-    # rest of the tree is not extracted.  The library has no public call that returns the target of a UDF symbolic link, so the
-    # repair is a new decoder in the tool rather than a small correction.
-    @property
-    def known(self):
-        def region(values):
-            t = values.get('tree', '')
-            has_links = t == 'symlinks' or (t.startswith('random:') and any(isinstance(v, tuple) for v in random_tree(int(t.split(':')[1])).values()))
-            return has_links and '-udf' in OPTIONS[values.get('options', 'plain')]
-        text = 'pycdlib-extract-files -path-type udf fails (AttributeError: UDFFileEntry has no rock_ridge) at the first symbolic link of a UDF image and extracts nothing after it'
-        return {'/post:udf-extraction-succeeds': [('K34', region, text)], '/post:udf-view-same-relative-paths': [('K34', region, text)],
-                '/post:udf-view-same-contents-and-links': [('K34', region, text)]}
-
     def setup(self, c):
         a = c.a
         a.tree = c._get('tree', 'basic')
